@@ -8,27 +8,29 @@ HERE = os.path.dirname(os.path.dirname(os.path.abspath(__file__)))
 TB = ('Trusted: Lean 4.33 kernel; axioms propext/Classical.choice/Quot.sound only (audited by #print axioms each run); '
       'translator/extract.py; the correspondence harness (generators, canonicalisers, JSON line protocol). ')
 
-CLAIMED = {
-    'C04': dict(
-        text='Theorems over the model of helpers.match, completion.filter_names, the sort in Completion.complete and '
-             'classes.Completion: fuzzy<->subsequence, start<->prefix, every completion matches the (case-folded) '
-             'fragment, complete is the missing suffix, prefix length = fragment length (under CharwiseLower, with a '
-             'kernel-checked counter-witness for the unrestricted statement), no duplicate (name, complete), sortedness, '
-             'and "the key tuple found in the source orders exactly as documented" stated over the translator-extracted '
-             'component list. Tie: translator + correspondence (unit level exhaustive on small strings, synthetic-name '
-             'stream, end-to-end stream on the candidates jedi collected). Attribute completeness is checked by '
-             'executing generated programs (a test, labelled as such).',
-        note=TB + 'Modelled not verified: CPython str.lower (parameter), candidate collection in '
-             'Completion._complete_python, dict-key/file-name completions that are prepended.',
-        technique='Lean 4 proof over hand-written model + translator-generated constants + differential correspondence',
-        design='5.C04'),
-}
+import importlib
+import sys
 
-NOT_YET = {
-}
+sys.path.insert(0, os.path.join(HERE, 'harness'))
+
+NOT_YET = {}
+
+
+def load_claimed():
+    """per-property metadata lives in harness/props/cXX.py as MANIFEST = dict(text=, note=, technique=, design=)"""
+    out = {}
+    d = os.path.join(HERE, 'harness', 'props')
+    for f in sorted(os.listdir(d)):
+        if f.startswith('c') and f.endswith('.py') and f[1:-3].isdigit():
+            mod = importlib.import_module('props.' + f[:-3])
+            m = getattr(mod, 'MANIFEST', None)
+            if m:
+                out[f[:-3].upper()] = m
+    return out
 
 
 def main():
+    CLAIMED = load_claimed()
     props = [json.loads(l) for l in open(os.path.join(HERE, 'properties.jsonl'))]
     checks = []
     na = []
@@ -44,7 +46,7 @@ def main():
                 'replay_cmd_template': './check %s --replay {path}' % pid,
                 'engine': 'lean4-model+correspondence',
                 'level_claimed': {'category': 'proof', 'text': c['text'], 'design_ref': c['design']},
-                'level_note': c['note'],
+                'level_note': TB + c['note'],
                 'technique': c['technique'],
             })
         else:
